@@ -50,9 +50,8 @@ theorem work_force {jo : JobObj} {kt : Time} {F0 : Int} {s : Sys} (h : KState jo
   have hTlb : ∀ t ∈ killTasks sp jo, ∀ f, t.ref.finishTimestamp = some f → F0 ≤ f := by
     intro t ht f hf
     obtain ⟨p, hp, hpt, _⟩ := killTasks_facts hsp_cache hsp_pods ht
-    have := podTask_finish hpt
-    rw [hf] at this
-    exact h.lbPods p (by rw [← e_pods]; exact hp) f this
+    exact podTask_finish_lb hpt (Int.le_trans h.lbKill hle)
+      (h.lbPods p (by rw [← e_pods]; exact hp)) f hf
   have hclk0 : F0 ≤ sp.clock := Int.le_trans h.lbKill hle
   obtain ⟨s6, rj5, M, h6, hfr6, hpods6, hevs6, hM, hk5, hs5, hlb5⟩ :=
     syncJobTasks_force sp jo kt h.spec hle hnf (by rw [e_cfg]; exact hF) hforb hT (killTasks_fn hsp_cache hsp_pods)
